@@ -177,6 +177,7 @@ func (l *lexer) setDelimiters(leftDelim, rightDelim string) {
 	if rightDelim != "" {
 		l.rightDelim = rightDelim
 	}
+	l.trimRightDelim = rightTrimMarker + l.rightDelim
 }
 
 func (l *lexer) setCommentDelimiters(leftDelim, rightDelim string) {
